@@ -20,6 +20,26 @@ _Rb_tree_node_base* _Rb_tree_decrement(_Rb_tree_node_base* x) throw() {
   else { _Rb_tree_node_base* y = x->_M_parent; while (x == y->_M_left) { x = y; y = y->_M_parent; } x = y; }
   return x;
 }
+_Rb_tree_node_base* _Rb_tree_rebalance_for_erase(_Rb_tree_node_base* const z, _Rb_tree_node_base& header) throw() {
+  // libstdc++'s unlinking of a node without the recolouring / rotations (the shim tree is not balanced)
+  _Rb_tree_node_base*& root = header._M_parent; _Rb_tree_node_base*& leftmost = header._M_left; _Rb_tree_node_base*& rightmost = header._M_right;
+  _Rb_tree_node_base* y = z; _Rb_tree_node_base* x = 0;
+  if (y->_M_left == 0) x = y->_M_right;
+  else if (y->_M_right == 0) x = y->_M_left;
+  else { y = y->_M_right; while (y->_M_left != 0) y = y->_M_left; x = y->_M_right; }
+  if (y != z) {
+    z->_M_left->_M_parent = y; y->_M_left = z->_M_left;
+    if (y != z->_M_right) { if (x) x->_M_parent = y->_M_parent; y->_M_parent->_M_left = x; y->_M_right = z->_M_right; z->_M_right->_M_parent = y; }
+    if (root == z) root = y; else if (z->_M_parent->_M_left == z) z->_M_parent->_M_left = y; else z->_M_parent->_M_right = y;
+    y->_M_parent = z->_M_parent; y = z;
+  } else {
+    if (x) x->_M_parent = y->_M_parent;
+    if (root == z) root = x; else if (z->_M_parent->_M_left == z) z->_M_parent->_M_left = x; else z->_M_parent->_M_right = x;
+    if (leftmost == z) { if (z->_M_right == 0) leftmost = z->_M_parent; else { _Rb_tree_node_base* m = x; while (m->_M_left != 0) m = m->_M_left; leftmost = m; } }
+    if (rightmost == z) { if (z->_M_left == 0) rightmost = z->_M_parent; else { _Rb_tree_node_base* m = x; while (m->_M_right != 0) m = m->_M_right; rightmost = m; } }
+  }
+  return y;
+}
 namespace __detail {
 void _List_node_base::_M_hook(_List_node_base* const position) noexcept { this->_M_next = position; this->_M_prev = position->_M_prev; position->_M_prev->_M_next = this; position->_M_prev = this; }
 void _List_node_base::_M_transfer(_List_node_base* const first, _List_node_base* const last) noexcept {
